@@ -32,10 +32,13 @@ fn utxo_keys(sim: &Sim) -> BTreeSet<Vec<u8>> {
     sim.node.blockchain.utxoset.iter().filter(|(_, f)| **f).map(|(k, _)| k.to_vec()).collect()
 }
 
+#[derive(Default)]
 struct Tally {
+    capped: usize,
     expiring: usize,
     rebroadcast: usize,
     dust: usize,
+    branches: Branches,
 }
 
 /// an honest step followed by the C13 oracle; returns the verdict and whether the history can go on
@@ -49,44 +52,25 @@ async fn checked_step(
     desc: &str,
     tally: &mut Tally,
 ) -> (CreateOutcome, StepResult, bool) {
-    let before = utxo_keys(sim);
-    let (mult, fpb) = sim.atr_params();
     let next_id = sim.tip().id + 1;
-    let e = if next_id > sim.gp + 1 { sim.chain.iter().find(|b| b.id == next_id - sim.gp - 1).cloned() } else { None };
-    let (co, sr) = sim.honest_step(ts, gt, txs).await;
+    let (co, sr, rep, mult) = atr_checked_step(sim, ts, gt, txs).await;
     let mut alive = true;
     match (&co, &sr.add) {
         (CreateOutcome::Ok, Some(AddClass::OnChain)) => {
-            let b = sim.tip().clone();
-            let rep = atr_oracle(sim, &b, e.as_ref(), &before, mult, fpb);
+            let rep = rep.unwrap();
+            if rep.capped {
+                tally.capped += 1;
+            }
             tally.expiring += rep.expiring_unspent;
             tally.rebroadcast += rep.rebroadcast;
             tally.dust += rep.dust;
+            tally.branches.note(sim.tip(), &rep, mult);
             for f in &rep.failures {
                 summary.oracle_failure(case, f, desc);
             }
-            for (id, what) in &rep.known {
-                summary.known_hit(id, case, what);
-            }
         }
         (CreateOutcome::Ok, Some(AddClass::Invalid)) => {
-            if mult > 1 {
-                summary.known_hit(
-                    "payout-multiplier-halts-chain",
-                    case,
-                    &format!(
-                        "block {} built by the real producer on tip {} is rejected by the node itself: treasury {} >= genesis_period {} * avg rebroadcast {} (multiplier {})",
-                        next_id,
-                        sim.tip().id,
-                        sim.tip().treasury,
-                        sim.gp,
-                        sim.tip().avg_nolan_rebroadcast_per_block,
-                        mult
-                    ),
-                );
-            } else {
-                summary.oracle_failure(case, &format!("block {} built by the real producer was rejected", next_id), desc);
-            }
+            summary.oracle_failure(case, &format!("block {} built by the real producer was rejected (payout multiplier {})", next_id, mult), desc);
             alive = false;
         }
         (CreateOutcome::Ok, Some(AddClass::Panicked)) => {
@@ -94,11 +78,7 @@ async fn checked_step(
             alive = false;
         }
         (CreateOutcome::Panic(p), _) => {
-            if mult > 1 {
-                summary.known_hit("payout-multiplier-halts-chain", case, &format!("Block::create panicked with multiplier {}: {}", mult, p));
-            } else {
-                summary.oracle_failure(case, &format!("Block::create panicked on valid input: {}", p), desc);
-            }
+            summary.oracle_failure(case, &format!("Block::create panicked on valid input (payout multiplier {}): {}", mult, p), desc);
             alive = false;
         }
         (CreateOutcome::Err(e), _) => {
@@ -119,7 +99,7 @@ async fn random_history(hrng: &mut Rng, gpar: &GenParams, case: usize, summary: 
         "{{\"case\":{},\"kind\":\"random\",\"genesis_period\":{},\"prune_after_blocks\":{},\"blocks\":{},\"fee_mode\":{},\"hops\":{},\"issuance\":{:?}}}",
         case, gpar.gp, gpar.pab, gpar.blocks, gpar.fee_mode, gpar.hops, jpairs(&issuance)
     );
-    let mut tally = Tally { expiring: 0, rebroadcast: 0, dust: 0 };
+    let mut tally = Tally::default();
     for i in 0..gpar.blocks {
         let ts = sim.tip().timestamp + 2 * HEARTBEAT + hrng.below(5000);
         let spendable = sim.spendable();
@@ -222,7 +202,7 @@ async fn pool_accepts(sim: &mut Sim, tx: &Transaction) -> Result<bool, String> {
 
 async fn scripted(name: &str, case: usize, summary: &mut Summary) -> (Sim, String) {
     let desc = format!("{{\"case\":{},\"kind\":\"scripted\",\"scenario\":\"{}\",\"genesis_period\":3,\"issuance\":{:?}}}", case, name, jpairs(ISS));
-    let mut tally = Tally { expiring: 0, rebroadcast: 0, dust: 0 };
+    let mut tally = Tally::default();
     let mut sim;
     match name {
         // treasury >= genesis_period * average rebroadcast volume: the multiplier exceeds 1
@@ -237,30 +217,65 @@ async fn scripted(name: &str, case: usize, summary: &mut Summary) -> (Sim, Strin
                     break;
                 }
             }
-            summary.count("scripted", &format!("{}:{}", name, if halted { "halted" } else { "alive-after-30" }));
+            summary.count("scripted", &format!("{}:{}:capped-blocks-{}", name, if halted { "halted" } else { "alive-after-30" }, tally.capped.min(9)));
+            if halted || sim.tip().treasury < sim.gp * sim.tip().avg_nolan_rebroadcast_per_block {
+                summary.oracle_failure(case, &format!("payout-multiplier scenario: halted {} at tip {} (treasury {}, avg rebroadcast {})", halted, sim.tip().id, sim.tip().treasury, sim.tip().avg_nolan_rebroadcast_per_block), &desc);
+            }
+        }
+        // deterministic scenario in which the rebroadcast section pays out of the treasury: multiplier >= 2
+        // without the cap, the cap with an adjusted factor >= 2, NFT groups in both, an NFT payload as dust
+        "atr-payout-positive" => {
+            sim = Sim::new(3, 8, 4, PAYOUT_ISS, 1_000_000).await;
+            for k in 0..PAYOUT_BLOCKS {
+                let ts = sim.tip().timestamp + 2 * HEARTBEAT + 1000;
+                let txs = payout_scenario_txs(&sim, k, ts);
+                let with_gt = !sim.tip().has_golden_ticket || txs.is_empty();
+                let gt = if with_gt {
+                    let parent = sim.tip().clone();
+                    Some(gt_tx_for(&sim.node, &parent, sim.keys[PAYOUT_MINER].0, 400 + k as u64).await)
+                } else {
+                    None
+                };
+                let (_co, _sr, alive) = checked_step(&mut sim, ts, gt, &txs, case, summary, &desc, &mut tally).await;
+                if std::env::var("VERIF_TRACE").is_ok() {
+                    let b = sim.tip();
+                    eprintln!("k={} id={} T={} avg_nolan={} avg_fpb={} pay_atr={} fees_atr={} atrs={} br={:?}", k, b.id, b.treasury, b.avg_nolan_rebroadcast_per_block, b.avg_fee_per_byte, b.total_payout_atr, b.total_fees_atr, b.transactions.iter().filter(|t| t.transaction_type == TransactionType::ATR).count(), tally.branches);
+                }
+                if !alive {
+                    break;
+                }
+            }
+            let br = tally.branches.clone();
+            summary.count("atr_branch:uncapped_payout_positive", &br.uncapped_positive.min(9).to_string());
+            summary.count("atr_branch:capped", &br.capped.min(9).to_string());
+            summary.count("atr_branch:capped_factor_ge_2", &br.capped_factor2.min(9).to_string());
+            summary.count("atr_branch:capped_nft", &br.capped_nft.min(9).to_string());
+            summary.count("atr_branch:uncapped_nft_payout", &br.uncapped_nft.min(9).to_string());
+            summary.count("atr_branch:nft_dust", &br.nft_dust.min(9).to_string());
+            for m in br.missing() {
+                summary.oracle_failure(case, &format!("coverage: the deterministic scenario atr-payout-positive no longer reaches the branch: {} ({:?})", m, br), &desc);
+            }
         }
         // the original of a rebroadcast output, and an output whose value was collected as fees, are spent afterwards
-        "spend-original-after-rebroadcast" | "spend-collected-output" => {
+        "spend-original-after-rebroadcast" | "spend-collected-output" | "spend-dust-in-collecting-block" => {
             sim = Sim::new(3, 8, 4, ISS, 1_000_000).await;
-            for k in 0..4 {
+            // the last variant offers the spend for block 5 itself: the first height the age rule forbids,
+            // where the output would be spent and collected at once
+            let prefix = if name == "spend-dust-in-collecting-block" { 3 } else { 4 };
+            for k in 0..prefix {
                 det_block(&mut sim, 50_000, vec![], k, case, summary, &desc, &mut tally).await;
             }
-            // block 5 handled the outputs of the genesis block: 90_000 was rebroadcast, 700 collected
+            // block 5 handles the outputs of the genesis block: 90_000 is rebroadcast, 700 collected
             let want = if name == "spend-original-after-rebroadcast" { 90_000 } else { 700 };
             let g = sim.chain[0].clone();
             let s: Slip = g.transactions.iter().flat_map(|t| t.to.iter()).find(|s| s.amount == want).unwrap().clone();
             let owner = sim.key_index(&s.public_key).unwrap();
             let ts = sim.tip().timestamp + 2 * HEARTBEAT + 1000;
             let tx = make_tx(&[s.clone()], &[(s.public_key, s.amount)], &sim.keys[owner].1, ts);
-            let finding = "collected-output-stays-spendable";
             match pool_accepts(&mut sim, &tx).await {
                 Ok(true) => {
-                    let what = format!("the pool accepts a transaction spending output 1:{}:{} ({}), which left the window at block 5", s.tx_ordinal, s.slip_index, s.amount);
-                    if want == 700 {
-                        summary.known_hit(finding, case, &what);
-                    } else {
-                        summary.oracle_failure(case, &what, &desc);
-                    }
+                    let what = format!("the pool of a node at tip {} accepts a transaction spending output 1:{}:{} ({}), which leaves the window at block 5", sim.tip().id, s.tx_ordinal, s.slip_index, s.amount);
+                    summary.oracle_failure(case, &what, &desc);
                 }
                 Ok(false) => {}
                 Err(m) => summary.oracle_failure(case, &format!("pool intake panicked: {}", m), &desc),
@@ -270,18 +285,15 @@ async fn scripted(name: &str, case: usize, summary: &mut Summary) -> (Sim, Strin
                 Some(AddClass::Invalid) => {}
                 other => {
                     let what = format!(
-                        "a block spending output 1:{}:{} ({}), which left the window at block 5, is not rejected: {:?} {}",
+                        "block {} spending output 1:{}:{} ({}), which leaves the window at block 5, is not rejected: {:?} {}",
+                        sim.tip().id + 1,
                         s.tx_ordinal,
                         s.slip_index,
                         s.amount,
                         other,
                         sr.panic_msg.clone().unwrap_or_default()
                     );
-                    if want == 700 {
-                        summary.known_hit(finding, case, &what);
-                    } else {
-                        summary.oracle_failure(case, &what, &desc);
-                    }
+                    summary.oracle_failure(case, &what, &desc);
                 }
             }
         }
@@ -322,7 +334,7 @@ async fn scripted(name: &str, case: usize, summary: &mut Summary) -> (Sim, Strin
             let mut edited = created.clone();
             let atr_pos: Vec<usize> = edited.transactions.iter().enumerate().filter(|(_, t)| t.transaction_type == TransactionType::ATR).map(|(i, _)| i).collect();
             summary.count("scripted", &format!("{}:atr-txs-{}", name, atr_pos.len()));
-            let mut expect_known: Option<&str> = None;
+            let expect_known: Option<&str> = None;
             match name {
                 "atr-omitted" => {
                     edited.transactions.remove(atr_pos[0]);
@@ -354,7 +366,7 @@ async fn scripted(name: &str, case: usize, summary: &mut Summary) -> (Sim, Strin
                         (Some(tw), Some(p)) if tw.slip_index == edited.transactions[p].from[0].slip_index => {
                             edited.transactions[p].from[0].block_id = tw.block_id;
                             edited.transactions[p].from[0].tx_ordinal = tw.tx_ordinal;
-                            expect_known = Some("rebroadcast-input-not-bound-to-location");
+                            summary.count("scripted", &format!("{}:twin-found", name));
                         }
                         _ => {
                             summary.count("scripted", &format!("{}:twin-not-found", name));
@@ -368,7 +380,7 @@ async fn scripted(name: &str, case: usize, summary: &mut Summary) -> (Sim, Strin
                     b.transactions.retain(|t| t.transaction_type != TransactionType::ATR);
                     edited = b;
                     edited.id += 1;
-                    expect_known = Some("block-id-not-checked");
+
                 }
                 _ => unreachable!(),
             }
@@ -414,7 +426,7 @@ async fn scripted(name: &str, case: usize, summary: &mut Summary) -> (Sim, Strin
                         let (mult, fpb) = (1u128, sim.chain[sim.chain.len() - 2].avg_fee_per_byte as u128);
                         let next_id = edited.id;
                         let e = if next_id > sim.gp + 1 { sim.chain.iter().find(|b| b.id == next_id - sim.gp - 1).cloned() } else { None };
-                        let rep = atr_oracle(&mut sim, &edited, e.as_ref(), &before, mult, fpb);
+                        let rep = atr_oracle(&mut sim, &edited, e.as_ref(), &before, mult, fpb, u128::MAX);
                         for f in rep.failures.iter().take(3) {
                             summary.known_hit(id, case, f);
                         }
@@ -426,7 +438,7 @@ async fn scripted(name: &str, case: usize, summary: &mut Summary) -> (Sim, Strin
             }
             // after a rejected edit the honest block must still be accepted and pass the oracle
             if sr.add == Some(AddClass::Invalid) {
-                let mut t2 = Tally { expiring: 0, rebroadcast: 0, dust: 0 };
+                let mut t2 = Tally::default();
                 det_block(&mut sim, 50_000, vec![], 50, case, summary, &desc, &mut t2).await;
             }
         }
@@ -456,6 +468,30 @@ async fn scripted(name: &str, case: usize, summary: &mut Summary) -> (Sim, Strin
             }
             summary.count("scripted", &format!("{}:group-rebroadcasts-{}", name, triples));
         }
+        // the age test adds genesis_period to the block id an input slip CLAIMS: a transaction naming
+        // block id 2^64 - 1 (signed by its owner, the output does not exist) must simply be rejected
+        "input-block-id-overflow" => {
+            sim = Sim::new(3, 8, 4, ISS, 1_000_000).await;
+            for k in 0..2 {
+                det_block(&mut sim, 50_000, vec![], k, case, summary, &desc, &mut tally).await;
+            }
+            let g = sim.chain[0].clone();
+            let mut s: Slip = g.transactions.iter().flat_map(|t| t.to.iter()).find(|s| s.amount == 90_000).unwrap().clone();
+            s.block_id = u64::MAX;
+            let owner = sim.key_index(&s.public_key).unwrap();
+            let ts = sim.tip().timestamp + 2 * HEARTBEAT + 1000;
+            let tx = make_tx(&[s.clone()], &[(s.public_key, s.amount)], &sim.keys[owner].1, ts);
+            match pool_accepts(&mut sim, &tx).await {
+                Ok(true) => summary.oracle_failure(case, "the pool accepts a transaction spending a non-existent output at block id 2^64-1", &desc),
+                Ok(false) => {}
+                Err(m) => summary.oracle_failure(case, &format!("Mempool::add_transaction_if_validates panics on a transaction whose input names block id 2^64-1: {}", m), &desc),
+            }
+            let (_co, sr) = sim.honest_step(ts, None, &[tx]).await;
+            match sr.add {
+                Some(AddClass::Invalid) => {}
+                other => summary.oracle_failure(case, &format!("a block carrying a transaction whose input names block id 2^64-1 is not rejected: {:?}", other), &desc),
+            }
+        }
         _ => unreachable!(),
     }
     summary.count("scripted", name);
@@ -478,8 +514,10 @@ async fn main() {
 
     for name in [
         "payout-multiplier",
+        "atr-payout-positive",
         "spend-original-after-rebroadcast",
         "spend-collected-output",
+        "spend-dust-in-collecting-block",
         "spend-in-rebroadcasting-block",
         "atr-omitted",
         "atr-duplicated",
@@ -489,6 +527,7 @@ async fn main() {
         "atr-input-substituted",
         "block-id-jump",
         "nft-two-windows",
+        "input-block-id-overflow",
     ] {
         let case = descs.len();
         let r = futures_catch(AssertUnwindSafe(scripted(name, case, &mut summary))).await;
@@ -530,10 +569,37 @@ async fn main() {
         ));
     }
 
+    // forks across the window edge (the twin that saw only the winning chain goes to the model)
+    let n_fork = if thorough { 24 } else { 4 };
+    for h in 0..n_fork {
+        let case = descs.len();
+        let mut hrng = rng.fork();
+        let gp = [3u64, 4, 5, 8][h % 4];
+        let r = futures_catch(AssertUnwindSafe(fork_history_atr(&mut hrng, gp, case))).await;
+        match r {
+            Ok((sim, desc, fails, delivery)) => {
+                for f in &fails {
+                    summary.oracle_failure(case, f, &desc);
+                }
+                summary.count("fork_delivery", &delivery);
+                coq_cases.push(sim.history_literal());
+                descs.push(desc);
+                keys.push(format!("fork:gp{}", gp));
+            }
+            Err(msg) => {
+                let desc = format!("{{\"case\":{},\"kind\":\"fork\",\"genesis_period\":{}}}", case, gp);
+                summary.oracle_failure(case, &format!("fork history panicked: {}", msg), &desc);
+                coq_cases.push(Sim::new(3, 8, 2, &[(0, 1000)], 1).await.history_literal());
+                descs.push(desc);
+                keys.push(format!("fork:gp{}", gp));
+            }
+        }
+    }
+
     // non-trivial: scripted cases, and random histories in which at least one unspent output left the window
     let mut distinct = BTreeSet::new();
     for k in &keys {
-        if k.starts_with("scripted") || k.contains("rb+") || k.contains("dust+") {
+        if k.starts_with("scripted") || k.starts_with("fork") || k.contains("rb+") || k.contains("dust+") {
             distinct.insert(k.clone());
         }
     }
